@@ -54,8 +54,7 @@ func main() {
 		case 7:
 			opc = ""
 		}
-		var supis [][]int
-		var rans []int
+		supis, rans := [][]int{}, []int{} // (never nil: a population whose first CreateUE fails is still an event the specification can read)
 		okKeys, okCaps := true, true
 		var kept []*tglib.RanUeContext
 		p := ev.Catch(func() {
